@@ -203,6 +203,8 @@ _lv("C19", "Every JSON handler of pc_api.go against a recording IProject with sy
 
 PROPS["C01"] = {
     "harnesses": [
+        {"pkg": "app", "name": "VerifC01_Api", "quick": {"d": 0}, "thorough": {"d": 1}, "native": False, "reach": ["end", "launched.after.ready"],
+         "bounds": {"operation": "RestartProcess / StopProcess+StartProcess / ScaleProcess to 2 / UpdateProject adding a dependent", "dependency": "process_healthy that becomes ready later, or process_completed_successfully that failed"}},
         {"pkg": "app", "name": "VerifC01_Gating", "quick": {"d": 0}, "thorough": {"d": 1}, "replay_repeat": 8,
          "bounds": {"N": 3, "edges": "every subset of {p1->p0,p2->p0,p2->p1} x {completed, completed_successfully, log_ready, started}", "dependency behaviour": "exit 0 / exit 3 / killed by a signal (-1) / runs until stopped",
                     "ready line": "printed or not"}},
